@@ -1,4 +1,5 @@
 import RecipeGrid.Model.Markdown
+import RecipeGrid.Model.Lint
 /-! Line-protocol requests served by the Markdown model. -/
 namespace RG
 
@@ -46,6 +47,10 @@ def dispatchMarkdown : Sexp → Option Sexp
     match md.asStr?, pos.asNat?, fenced.asBool?, src.asStr? with
     | some md, some pos, some f, some src => some (Sexp.ofStr (paddedSource md pos f src))
     | _, _, _, _ => some (Sexp.tag "bad-request" [Sexp.atom "args"])
+  | .list [.atom "lint", spec, bs] =>
+    match spec.asBool?, blocksOfSexp? bs with
+    | some spec, some bs => some (Sexp.ofOpt (Sexp.ofList fun (k : LintKind) => Sexp.atom k.name) (lintWith spec bs))
+    | _, _ => some (Sexp.tag "bad-request" [Sexp.atom "args"])
   | _ => none
 
 end RG
